@@ -27,6 +27,13 @@ def _fill(seed):
     return decks.fill_deck(seed), {}
 
 
+@family('lattice')
+def _lattice(seed):
+    from . import decks
+    d = decks.lattice_deck(seed)
+    return d, {'lattice': d.lattice_opts}
+
+
 def _norm_label(f):
     lab = f['label']
     if lab in ('structure', 'conversion-raised'):
